@@ -188,6 +188,8 @@ def check(case, rec):
     b = build(base)
     rec.cls("fault=" + fault[0])
     rec.cls("framing=" + base["framing"])
+    if fault[0] == "none":
+        return
     if base["comps"][-1]["blob"].endswith(b"\0") and not base["comps"][-1]["enc"]:
         rec.cls("base.last-payload-trailing00")
     text, decryptors, key_override = apply_fault(base, b, fault)
@@ -244,7 +246,11 @@ def enum_faults(tier, shard, nshards, rng):
         idx = shard * 1000 + i
         brng = random.Random(rng.getrandbits(64))
         base = gen_base(brng, idx)
-        b = build(base)
+        yield dict(base=base, fault=("none",))  # the undamaged file itself (reported through the normal case path if it fails)
+        try:
+            b = build(base)
+        except Violation:
+            continue
         for fault in faults_for(base, b, brng):
             yield dict(base=base, fault=fault)
 
